@@ -51,7 +51,9 @@ func init() {
 				}
 				runRegistryHistory(c, id, rules)
 			},
-			Need: need,
+			// besides the rule counters: every kind of operation of both modules must have gone through
+			// at least once, or the run has not observed what the property speaks about (inconclusive)
+			Need: append(need, "ok_MsgRegisterWrkChain", "ok_MsgRegisterBeacon", "ok_MsgRecordWrkChainBlock", "ok_MsgRecordBeaconTimestamp", "ok_MsgPurchaseWrkChainStateStorage", "ok_MsgPurchaseBeaconStateStorage"),
 			Assumptions: []string{"entity counts per history are small (<= 6 registrations per module, <= ~80 records each) so that every record ever accepted can be re-queried after every operation",
 				"single-signer transactions; nesting through real x/authz grants + MsgExec (depth 1-2)"},
 		})
